@@ -85,6 +85,9 @@ def baseCat (n : Bytes) : Option Cat :=
 
 def isContainerName (n : Bytes) : Bool := decide (n ∈ Generated.C05.containerCase)
 
+/-- `_, ok := categoryMap[n]` -/
+def inCategoryMap (n : Bytes) : Bool := (lookupB n Generated.C05.categoryMap).isSome
+
 /-- `c >= Category_Enum && c <= Category_Typedef` -/
 def Cat.isTypeLike (c : Cat) : Bool :=
   decide (Generated.C05.typeLo ≤ c.toNat) && decide (c.toNat ≤ Generated.C05.typeHi)
@@ -302,7 +305,9 @@ def resolveType (env : Env) (slot : Slot) : Nat → TypeExpr → Res (Out (List 
 the map is shared by reference, but after the call made for a qualified typedef the function returns
 at once, so passing the grown set downwards is all there is to it.  A typedef met a second time gives
 (nil, -1).  The fuel only makes the definition structural: the visited set bounds the recursion by
-the number of typedefs, `Err.fuel` is not an outcome of the Go code. -/
+the number of typedefs, `Err.fuel` is not an outcome of the Go code.  The two tests before the final
+fall-back (container type, base-type keyword) are one test here: a container's `Type.Name` is its
+keyword, which is a key of categoryMap (`container_table`). -/
 def getEnum (views : Nat → Option FileView) : Nat → List (Nat × Bytes) → Nat → Bytes →
     Res (Option (List Bytes) × Int)
   | 0, _, _, _ => .error .fuel
@@ -332,7 +337,11 @@ def getEnum (views : Nat → Option FileView) : Nat → List (Nat × Bytes) → 
                   | .error e => .error e
                   | .ok (some vals, _) => .ok (some vals, (r.index : Int))
                   | .ok (none, _) => .ok (none, -1)
-              | none => getEnum views fuel ((j, name) :: seen) j td.rootName
+              | none =>
+                -- `x.Type.KeyType != nil || x.Type.ValueType != nil` (a container: its Name is map /
+                -- list / set, keys of categoryMap too) or `categoryMap[x.Type.Name]` exists
+                if inCategoryMap td.rootName then .ok (none, -1)
+                else getEnum views fuel ((j, name) :: seen) j td.rootName
         else .ok (none, -1)
 
 /-! ### ResolveConstValue -/
